@@ -284,8 +284,9 @@ var splitProp = vp.Register(vp.Prop[SplitCase]{
 	Kind: "c13.split", Base: 60000,
 	Gen: func(t *rapid.T) SplitCase {
 		return SplitCase{
-			S:   rapid.StringOfN(rapid.RuneFrom([]rune(",; \t\n  \u0085​ab世\v\r")), 0, 14, -1).Draw(t, "s"),
-			Sep: rapid.SampledFrom([]string{",", ";", " ", "", ", ", "ab", "\n", " ", "a", ",,", "世"}).Draw(t, "sep"),
+			S: strings.Join(rapid.SliceOfN(rapid.SampledFrom([]string{",", ";", " ", "\t", "\n", "\u00a0", "\u2003", "\u0085", "\u200b", "\u2028", "\u3000", "\ufeff", "\u1680",
+				"a", "b", "ab", "世", "\v", "\f", "\r", "\x00", "\xff", "\xc2", "\xe2\x80", ",", " ", " "}), 0, 24).Draw(t, "s"), ""),
+			Sep: rapid.SampledFrom([]string{",", ";", " ", "", ", ", "ab", "\n", "\u00a0", "a", ",,", "世", "\xff", "\x00", " ,", "\u3000"}).Draw(t, "sep"),
 		}
 	},
 	Check: checkSplit,
